@@ -94,9 +94,9 @@ Props/C03.vos Props/C03.vok Props/C03.required_vos: Props/C03.v Props/Shipped.vo
 Props/C04.vo Props/C04.glob Props/C04.v.beautified Props/C04.required_vo: Props/C04.v Props/Shipped.vo Proofs/ApiFacts.vo Proofs/Laws.vo
 Props/C04.vio: Props/C04.v Props/Shipped.vio Proofs/ApiFacts.vio Proofs/Laws.vio
 Props/C04.vos Props/C04.vok Props/C04.required_vos: Props/C04.v Props/Shipped.vos Proofs/ApiFacts.vos Proofs/Laws.vos
-Props/C05.vo Props/C05.glob Props/C05.v.beautified Props/C05.required_vo: Props/C05.v Props/Shipped.vo Spec/Lex.vo Spec/Grammar.vo Proofs/ScanRef.vo Proofs/ParseGrammar.vo Proofs/ApiFacts.vo
-Props/C05.vio: Props/C05.v Props/Shipped.vio Spec/Lex.vio Spec/Grammar.vio Proofs/ScanRef.vio Proofs/ParseGrammar.vio Proofs/ApiFacts.vio
-Props/C05.vos Props/C05.vok Props/C05.required_vos: Props/C05.v Props/Shipped.vos Spec/Lex.vos Spec/Grammar.vos Proofs/ScanRef.vos Proofs/ParseGrammar.vos Proofs/ApiFacts.vos
+Props/C05.vo Props/C05.glob Props/C05.v.beautified Props/C05.required_vo: Props/C05.v Props/Shipped.vo Spec/Lex.vo Spec/Grammar.vo Spec/Reject.vo Proofs/ScanRef.vo Proofs/ParseGrammar.vo Proofs/ApiFacts.vo Proofs/RejectProof.vo
+Props/C05.vio: Props/C05.v Props/Shipped.vio Spec/Lex.vio Spec/Grammar.vio Spec/Reject.vio Proofs/ScanRef.vio Proofs/ParseGrammar.vio Proofs/ApiFacts.vio Proofs/RejectProof.vio
+Props/C05.vos Props/C05.vok Props/C05.required_vos: Props/C05.v Props/Shipped.vos Spec/Lex.vos Spec/Grammar.vos Spec/Reject.vos Proofs/ScanRef.vos Proofs/ParseGrammar.vos Proofs/ApiFacts.vos Proofs/RejectProof.vos
 Props/C06.vo Props/C06.glob Props/C06.v.beautified Props/C06.required_vo: Props/C06.v Props/Shipped.vo Spec/Eval.vo Spec/Units.vo WF/Units.vo Proofs/ApiFacts.vo Proofs/Laws.vo Proofs/MatchProof.vo Proofs/Sat.vo Proofs/RoundTrip.vo Proofs/BytesFacts.vo
 Props/C06.vio: Props/C06.v Props/Shipped.vio Spec/Eval.vio Spec/Units.vio WF/Units.vio Proofs/ApiFacts.vio Proofs/Laws.vio Proofs/MatchProof.vio Proofs/Sat.vio Proofs/RoundTrip.vio Proofs/BytesFacts.vio
 Props/C06.vos Props/C06.vok Props/C06.required_vos: Props/C06.v Props/Shipped.vos Spec/Eval.vos Spec/Units.vos WF/Units.vos Proofs/ApiFacts.vos Proofs/Laws.vos Proofs/MatchProof.vos Proofs/Sat.vos Proofs/RoundTrip.vos Proofs/BytesFacts.vos
@@ -205,6 +205,9 @@ Proofs/Replace.vos Proofs/Replace.vok Proofs/Replace.required_vos: Proofs/Replac
 Spec/Units.vo Spec/Units.glob Spec/Units.v.beautified Spec/Units.required_vo: Spec/Units.v Model/Api.vo Spec/Lex.vo Spec/WF.vo Spec/Spellings.vo
 Spec/Units.vio: Spec/Units.v Model/Api.vio Spec/Lex.vio Spec/WF.vio Spec/Spellings.vio
 Spec/Units.vos Spec/Units.vok Spec/Units.required_vos: Spec/Units.v Model/Api.vos Spec/Lex.vos Spec/WF.vos Spec/Spellings.vos
+Spec/Reject.vo Spec/Reject.glob Spec/Reject.v.beautified Spec/Reject.required_vo: Spec/Reject.v Spec/Grammar.vo
+Spec/Reject.vio: Spec/Reject.v Spec/Grammar.vio
+Spec/Reject.vos Spec/Reject.vok Spec/Reject.required_vos: Spec/Reject.v Spec/Grammar.vos
 WF/Units.vo WF/Units.glob WF/Units.v.beautified WF/Units.required_vo: WF/Units.v Spec/Units.vo Gen/Tables.vo
 WF/Units.vio: WF/Units.v Spec/Units.vio Gen/Tables.vio
 WF/Units.vos WF/Units.vok WF/Units.required_vos: WF/Units.v Spec/Units.vos Gen/Tables.vos
@@ -232,3 +235,6 @@ Model/Expand.vos Model/Expand.vok Model/Expand.required_vos: Model/Expand.v Mode
 Proofs/ExpandProof.vo Proofs/ExpandProof.glob Proofs/ExpandProof.v.beautified Proofs/ExpandProof.required_vo: Proofs/ExpandProof.v Model/Expand.vo Spec/Eval.vo Proofs/Laws.vo
 Proofs/ExpandProof.vio: Proofs/ExpandProof.v Model/Expand.vio Spec/Eval.vio Proofs/Laws.vio
 Proofs/ExpandProof.vos Proofs/ExpandProof.vok Proofs/ExpandProof.required_vos: Proofs/ExpandProof.v Model/Expand.vos Spec/Eval.vos Proofs/Laws.vos
+Proofs/RejectProof.vo Proofs/RejectProof.glob Proofs/RejectProof.v.beautified Proofs/RejectProof.required_vo: Proofs/RejectProof.v Spec/Reject.vo Proofs/BytesFacts.vo Proofs/ParseGrammar.vo
+Proofs/RejectProof.vio: Proofs/RejectProof.v Spec/Reject.vio Proofs/BytesFacts.vio Proofs/ParseGrammar.vio
+Proofs/RejectProof.vos Proofs/RejectProof.vok Proofs/RejectProof.required_vos: Proofs/RejectProof.v Spec/Reject.vos Proofs/BytesFacts.vos Proofs/ParseGrammar.vos
